@@ -116,5 +116,25 @@ Definition check_case (c : case) : bool :=
   | _, _ => false
   end.
 
-(* what the model does, for diagnosis in replay files *)
-Definition model_result (c : case) : noderes := node_run (c_classes c) (c_files c).
+(* what the model does, for diagnosis in replay files (no float terms: their normal forms are huge) *)
+Inductive msum :=
+| SCreated (params_ok : list bool) (mvals_ok write_ok names_ok trace_ok : bool) (nwrite ntrace : nat)
+| SCreatedNoObs | SRejected (es : list err) | SCrashed.
+Definition mod_sum (m : outcome) (o : option mobs) : msum :=
+  match m, o with
+  | Created i, Some (OCreated ps mv w names tr) =>
+      SCreated (map (fun po => existsb (fun p => param_ok p po) (i_params i)) ps)
+        (forallb (fun kv => match assoc_str (fst kv) (i_mvals i) with Some x => pv_same x (snd kv) | None => false end) mv)
+        (list_eqb kv_eqb (i_write i) w) (same_set ss_eqb (i_names i) names) (list_eqb ev_eqb (startup i) tr)
+        (List.length (i_write i)) (List.length (startup i))
+  | Created _, _ => SCreatedNoObs
+  | Rejected es, _ => SRejected es
+  | Crashed, _ => SCrashed
+  end.
+Definition model_result (c : case) : option (list (str * msum)) :=
+  match node_run (c_classes c) (c_files c) with
+  | LoadFailed => None
+  | Loaded rs =>
+      Some (map (fun r => (fst r, mod_sum (snd r)
+                   match c_obs c with OLoaded ms _ _ => assoc_str (fst r) ms | _ => None end)) rs)
+  end.
